@@ -273,12 +273,17 @@ FinDrainOne ==
          ELSE cons' = "cancel" /\ cur' = [x |-> z.x, f |-> z.f]
   /\ UNCHANGED <<p, srcPos, feeder, held, heldF, lastF, fut, pendq, wk, calls, val, out, stop, raised, exec>>
 
-\* `t.cancel()`: succeeds only while the work item has not been started
+\* `t.cancel()`.  A concurrent.futures.Future can be cancelled only while its work item has not been started;
+\* an asyncio task can also be cancelled while it runs (CancelledError is thrown into it at its next await).
+Cancellable(f) == IF p.mode = "async" THEN fut[f] \in {"pending", "taken", "running"} ELSE fut[f] = "pending"
 FinCancel ==
   /\ cons = "cancel"
-  /\ fut' = IF fut[cur.f] = "pending" THEN [fut EXCEPT ![cur.f] = "cancelled"] ELSE fut
+  /\ IF Cancellable(cur.f)
+       THEN /\ fut' = [fut EXCEPT ![cur.f] = "cancelled"]
+            /\ wk' = IF fut[cur.f] \in {"taken", "running"} THEN wk \ {cur.f} ELSE wk
+       ELSE fut' = fut /\ wk' = wk
   /\ cons' = "drain" /\ cur' = NoCur
-  /\ UNCHANGED <<p, srcPos, feeder, held, heldF, lastF, q, pendq, wk, calls, val, out, stop, raised, exec>>
+  /\ UNCHANGED <<p, srcPos, feeder, held, heldF, lastF, q, pendq, calls, val, out, stop, raised, exec>>
 
 \* `tasks.empty()` answered True
 FinDrainEmpty ==
